@@ -137,6 +137,8 @@ pub enum Ret {
     Fin(ResC),
     State(String),
     Probe { last_id: i32, closed: bool },
+    /// outcome class of get_peer_certificate(): "none" | "some" | "err"
+    Cert(String),
     Err(ErrC),
     Cancelled,
     /// the call panicked on the caller's stack
